@@ -40,21 +40,23 @@ def insertDestFromDict (sD sIdx sKey : String) (key : Obj) (d : Dict) (named : N
     | none => E
     | some val => insertDest sIdx sKey key val named
 
+/-- one (key, value) pair of the `Names` array -/
+def destOfPair (os : Objects) (key val : Obj) (named : Named) : Outcome Named :=
+  match val with
+  | .ref a b =>
+    match getDictionary os (a, b) with
+    | some d => insertDestFromDict S_DEST_REFDICT_D S_DEST_REFDICT_IDX S_DEST_REFDICT_KEY key d named
+    | none =>
+      match getObject os (a, b) with
+      | some (.arr v) => insertDest S_DEST_REFARR_IDX S_DEST_REFARR_KEY key v named
+      | _ => .ok named
+  | .dict d => insertDestFromDict S_DEST_DICT_D S_DEST_DICT_IDX S_DEST_DICT_KEY key d named
+  | _ => .ok named
+
 /-- the `Names` loop: consumes (key, value) pairs -/
 def namesLoop (os : Objects) : List Obj → Named → Outcome Named
   | key :: val :: rest, named =>
-    let r : Outcome Named :=
-      match val with
-      | .ref a b =>
-        match getDictionary os (a, b) with
-        | some d => insertDestFromDict S_DEST_REFDICT_D S_DEST_REFDICT_IDX S_DEST_REFDICT_KEY key d named
-        | none =>
-          match getObject os (a, b) with
-          | some (.arr v) => insertDest S_DEST_REFARR_IDX S_DEST_REFARR_KEY key v named
-          | _ => .ok named
-      | .dict d => insertDestFromDict S_DEST_DICT_D S_DEST_DICT_IDX S_DEST_DICT_KEY key d named
-      | _ => .ok named
-    match r with
+    match destOfPair os key val named with
     | .ok named' => namesLoop os rest named'
     | .err e => .err e
     | .panic s => .panic s
